@@ -979,7 +979,11 @@ class VariationalWassersteinDistance(darsia.EMD):
                         ).ravel("F")[cells]
 
             # Average over the subcells using harmonic averaging
-            flat_weighted_flux_norm = hmean(subcell_flux_norm, axis=1)
+            # Regularize as in the cell-based modes to avoid division by zero for
+            # vanishing fluxes (infinite face weights).
+            flat_weighted_flux_norm = np.maximum(
+                hmean(subcell_flux_norm, axis=1), self.regularization
+            )
 
             # Combine weights**2 / |weight * flux| on faces
             face_weights = harm_avg_face_weights**2 / flat_weighted_flux_norm
@@ -1000,7 +1004,11 @@ class VariationalWassersteinDistance(darsia.EMD):
 
             # Determine the l2 norm of the fluxes on the faces
             weighted_face_flux = self._product(harm_avg_face_weights, full_face_flux)
-            norm_weighted_face_flux = np.linalg.norm(weighted_face_flux, 2, axis=1)
+            # Regularize as in the cell-based modes to avoid division by zero for
+            # vanishing fluxes (infinite face weights).
+            norm_weighted_face_flux = np.maximum(
+                np.linalg.norm(weighted_face_flux, 2, axis=1), self.regularization
+            )
 
             # Combine weights**2 / |weight * flux| on faces
             face_weights = harm_avg_face_weights**2 / norm_weighted_face_flux
